@@ -442,6 +442,13 @@ def run(ctx):
                    (["a = {3 m, 100 cm, 2 m}; b = a; m = %s(b); a" % _f], "A:[Q:I:3|0,1,0,0,0,0,0,0;Q:I:1|0,1,0,0,0,0,0,0;Q:I:2|0,1,0,0,0,0,0,0]", "%s(b) leaves the aliased a unchanged" % _f)]
     _items += [(["n = 10!", "n / 8!"], "I:90", "a lazy value assigned in one input and divided in the next"),
                (["n = 5!", "n", "n * 2"], "I:240", "a lazy value displayed and then multiplied")]
+    # sessions far longer than a random generator's: a counter, many names, re-binding after errors
+    _items += [(["x = 0"] + ["x = x + 1"] * 300 + ["x"], "I:300", "300 updates of one variable"),
+               (["v%d = %d" % (i, i * i) for i in range(150)] + ["v0 + v77 + v149"], "I:%d" % (77 * 77 + 149 * 149), "150 names in one session"),
+               (["x = 1"] + [t for i in range(60) for t in ("x = x * 2", "nosuch%d + 1" % i, "1/0")] + ["x"], "I:%d" % 2 ** 60, "60 updates interleaved with 120 failing inputs"),
+               (["a = {}"] + ["a = {size(a)} "] * 40 + ["a"], "A:[I:1]", "an array rebuilt 40 times"),
+               (["s = 0"] + ["s = s + sum(1..%d)" % i for i in range(1, 101)] + ["s"], "I:%d" % sum(i * (i + 1) // 2 for i in range(1, 101)), "100 updates through a function call"),
+               (["; ".join("w%d = %d" % (i, i) for i in range(400)) + "; w399 - w1"], "I:398", "400 assignments in one input")]
     C.expect_sessions(ctx["report"], ctx["rundir"], "C14", _items)
     rep, tier, seed = ctx["report"], ctx["tier"], ctx["seed"]
     rng = random.Random(seed * 7877 + 14)
